@@ -11,53 +11,53 @@ import WaVerif.Model.C03CExpr
 namespace WaVerif.C03
 open WaVerif.Wasm
 
-/-- a WebAssembly integer value type and its carrier -/
-def Ty.bits : Ty → Nat
-  | .i32 => 32 | .i64 => 64
-
-def mkC : (t : Ty) → BitVec (Ty.bits t) → CVal
-  | .i32, v => .i32 v
-  | .i64, v => .i64 v
-
-/-- expected outcome of the C function for a WebAssembly result (`none` = trap) -/
-def expect (t : Ty) (r : Option (BitVec (Ty.bits t))) (m : Mem) : Outcome :=
+/-- expected outcome of the C function for a WebAssembly result (`none` = trap); `inj` is the C type of the result -/
+def expect {w : Nat} (inj : BitVec w → CVal) (r : Option (BitVec w)) (m : Mem) : Outcome :=
   match r with
-  | some v => .ret (some (mkC t v)) m
+  | some v => .ret (some (inj v)) m
   | none => .trap
 
 /-! ### WebAssembly semantics of the rows (from Base/WasmNum.lean) -/
-def wBin (t : Ty) (k : BinK) (x y : BitVec (Ty.bits t)) : Option (BitVec (Ty.bits t)) := binop k x y
-def wRel (t : Ty) (k : RelK) (x y : BitVec (Ty.bits t)) : Option (BitVec 32) := some (b2i (relop k x y))
-def wEqz (t : Ty) (x : BitVec (Ty.bits t)) : Option (BitVec 32) := some (b2i (x == 0))
-def wUn (t : Ty) (k : UnK) (x : BitVec (Ty.bits t)) : Option (BitVec (Ty.bits t)) := some (Wasm.unop k x)
+def wBin {w : Nat} (k : BinK) (x y : BitVec w) : Option (BitVec w) := binop k x y
+def wRel {w : Nat} (k : RelK) (x y : BitVec w) : Option (BitVec 32) := some (b2i (relop k x y))
+def wEqz {w : Nat} (x : BitVec w) : Option (BitVec 32) := some (b2i (x == 0))
+def wUn {w : Nat} (k : UnK) (x : BitVec w) : Option (BitVec w) := some (Wasm.unop k x)
 def wWrap (x : BitVec 64) : Option (BitVec 32) := some (x.setWidth 32)
 def wExtS (x : BitVec 32) : Option (BitVec 64) := some (x.signExtend 64)
 def wExtU (x : BitVec 32) : Option (BitVec 64) := some (x.setWidth 64)
-def wSelect (t : Ty) (a b : BitVec (Ty.bits t)) (c : BitVec 32) : Option (BitVec (Ty.bits t)) := some (if c = 0 then b else a)
+def wSelect {w : Nat} (a b : BitVec w) (c : BitVec 32) : Option (BitVec w) := some (if c = 0 then b else a)
+def wConst {w : Nat} (c : BitVec w) : Option (BitVec w) := some c
 
-/-! ### statement forms -/
-def Full1 (ta tr : Ty) (spec : BitVec (Ty.bits ta) → Option (BitVec (Ty.bits tr))) (f : CFunc) : Prop :=
-  ∀ (x : BitVec (Ty.bits ta)) (m : Mem), crun f [mkC ta x] m = expect tr (spec x) m
+/-! ### statement forms (`ia ib ic ir` are `CVal.i32` / `CVal.i64`: the C parameter and result types) -/
+def Full0 {wr : Nat} (ir : BitVec wr → CVal) (spec : Option (BitVec wr)) (f : CFunc) : Prop :=
+  ∀ (m : Mem), crun f [] m = expect ir spec m
 
-def Full2 (ta tb tr : Ty) (spec : BitVec (Ty.bits ta) → BitVec (Ty.bits tb) → Option (BitVec (Ty.bits tr))) (f : CFunc) : Prop :=
-  ∀ (x : BitVec (Ty.bits ta)) (y : BitVec (Ty.bits tb)) (m : Mem), crun f [mkC ta x, mkC tb y] m = expect tr (spec x y) m
+def Full1 {wa wr : Nat} (ia : BitVec wa → CVal) (ir : BitVec wr → CVal) (spec : BitVec wa → Option (BitVec wr)) (f : CFunc) : Prop :=
+  ∀ (x : BitVec wa) (m : Mem), crun f [ia x] m = expect ir (spec x) m
 
-def Full3 (ta tb tc tr : Ty)
-    (spec : BitVec (Ty.bits ta) → BitVec (Ty.bits tb) → BitVec (Ty.bits tc) → Option (BitVec (Ty.bits tr))) (f : CFunc) : Prop :=
-  ∀ (x : BitVec (Ty.bits ta)) (y : BitVec (Ty.bits tb)) (z : BitVec (Ty.bits tc)) (m : Mem),
-    crun f [mkC ta x, mkC tb y, mkC tc z] m = expect tr (spec x y z) m
+def Full2 {wa wb wr : Nat} (ia : BitVec wa → CVal) (ib : BitVec wb → CVal) (ir : BitVec wr → CVal)
+    (spec : BitVec wa → BitVec wb → Option (BitVec wr)) (f : CFunc) : Prop :=
+  ∀ (x : BitVec wa) (y : BitVec wb) (m : Mem), crun f [ia x, ib y] m = expect ir (spec x y) m
 
-def Partial1 (ta tr : Ty) (G : BitVec (Ty.bits ta) → Prop)
-    (spec : BitVec (Ty.bits ta) → Option (BitVec (Ty.bits tr))) (f : CFunc) : Prop :=
-  ∀ (x : BitVec (Ty.bits ta)) (m : Mem), G x → crun f [mkC ta x] m = expect tr (spec x) m
+def Full3 {wa wb wc wr : Nat} (ia : BitVec wa → CVal) (ib : BitVec wb → CVal) (ic : BitVec wc → CVal) (ir : BitVec wr → CVal)
+    (spec : BitVec wa → BitVec wb → BitVec wc → Option (BitVec wr)) (f : CFunc) : Prop :=
+  ∀ (x : BitVec wa) (y : BitVec wb) (z : BitVec wc) (m : Mem), crun f [ia x, ib y, ic z] m = expect ir (spec x y z) m
 
-def Partial2 (ta tb tr : Ty) (G : BitVec (Ty.bits ta) → BitVec (Ty.bits tb) → Prop)
-    (spec : BitVec (Ty.bits ta) → BitVec (Ty.bits tb) → Option (BitVec (Ty.bits tr))) (f : CFunc) : Prop :=
-  ∀ (x : BitVec (Ty.bits ta)) (y : BitVec (Ty.bits tb)) (m : Mem), G x y → crun f [mkC ta x, mkC tb y] m = expect tr (spec x y) m
+def Partial1 {wa wr : Nat} (ia : BitVec wa → CVal) (ir : BitVec wr → CVal) (G : BitVec wa → Prop)
+    (spec : BitVec wa → Option (BitVec wr)) (f : CFunc) : Prop :=
+  ∀ (x : BitVec wa) (m : Mem), G x → crun f [ia x] m = expect ir (spec x) m
 
-def Sound2 (ta tb tr : Ty) (spec : BitVec (Ty.bits ta) → BitVec (Ty.bits tb) → Option (BitVec (Ty.bits tr))) (f : CFunc) : Prop :=
-  ∀ (x : BitVec (Ty.bits ta)) (y : BitVec (Ty.bits tb)) (m : Mem) (v : Option CVal) (m' : Mem),
-    crun f [mkC ta x, mkC tb y] m = .ret v m' → expect tr (spec x y) m = .ret v m'
+def Partial2 {wa wb wr : Nat} (ia : BitVec wa → CVal) (ib : BitVec wb → CVal) (ir : BitVec wr → CVal) (G : BitVec wa → BitVec wb → Prop)
+    (spec : BitVec wa → BitVec wb → Option (BitVec wr)) (f : CFunc) : Prop :=
+  ∀ (x : BitVec wa) (y : BitVec wb) (m : Mem), G x y → crun f [ia x, ib y] m = expect ir (spec x y) m
+
+def Sound1 {wa wr : Nat} (ia : BitVec wa → CVal) (ir : BitVec wr → CVal) (spec : BitVec wa → Option (BitVec wr)) (f : CFunc) : Prop :=
+  ∀ (x : BitVec wa) (m : Mem) (v : Option CVal) (m' : Mem), crun f [ia x] m = .ret v m' → expect ir (spec x) m = .ret v m'
+
+def Sound2 {wa wb wr : Nat} (ia : BitVec wa → CVal) (ib : BitVec wb → CVal) (ir : BitVec wr → CVal)
+    (spec : BitVec wa → BitVec wb → Option (BitVec wr)) (f : CFunc) : Prop :=
+  ∀ (x : BitVec wa) (y : BitVec wb) (m : Mem) (v : Option CVal) (m' : Mem),
+    crun f [ia x, ib y] m = .ret v m' → expect ir (spec x y) m = .ret v m'
 
 /-! ### operand guards of the `_partial` theorems (fixed by the instruction, independent of the emitted C) -/
 namespace Guard
